@@ -100,6 +100,22 @@ def test_a():
 }
 
 
+PROJECTS["p4"] = {"test_a.py": '''from inline_snapshot import snapshot
+
+
+def test_a():
+    assert 1 == snapshot()
+    assert 2 == snapshot(3)
+    assert 7 in snapshot([7, 8])
+''', "test_b.py": '''from inline_snapshot import snapshot
+
+
+def test_b():
+    assert 5 == snapshot()
+'''}
+PROJECTS["p5"] = {"test_a.py": PROJECTS["p4"]["test_b.py"].replace("test_b", "test_a"), "test_b.py": PROJECTS["p4"]["test_a.py"].replace("test_a", "test_b")}
+
+
 def project_files(name):
     files = dict(PROJECTS[name])
     files[f".inline-snapshot/external/{sha(OLD_EXT)}.txt"] = OLD_EXT
@@ -460,6 +476,16 @@ def execute(case, ctx):
             sig = "outcome-differs-from-exactly-approved:" + ("storage" if only_storage else "test-file") + (":review-mode" if review and only_storage else "")
             clause = "exactly-approved"
         viol(clause, sig, f"config {cfg}\n  effective approved set (spec) = {sorted(approved)}; files differing from the reference outcome: {ks}\n{d}\n--- session output\n{res.get('out', '')[-1200:]}")
+    # ---- independent of the reference session: an approved create / fix is applied to EVERY file - a plain report session on the outcome no longer
+    #      lists that category (the reference session runs the same approval loop and would share a dropped category)
+    if approved & {"create", "fix"} and not cfg.get("xfail_all") and case.get("followup", True):
+        fnew, fres = sim.run_session(ctx, "plugin", {k: v for k, v in new.items() if not k.endswith(".pyc")}, {"flags": "report"}, timeout=90)
+        if fres.get("status") == "ok" and sim.session_completed("plugin", fres):
+            ctx.count("probe_follow_up_report_session")
+            still = sorted(set(drivers.report_categories(fres.get("out", ""))) & approved & {"create", "fix"})
+            if still:
+                viol("exactly-approved", "approved-category-still-pending-after-the-session:" + "+".join(still),
+                     f"config {cfg}\n  effective approved set (spec) = {sorted(approved)}, but a report session on the outcome still lists {still}\n--- session output\n{res.get('out', '')[-1500:]}")
     # ---- the same session through the real prompt (rich.prompt.Confirm reading stdin): same outcome as through the scripted answers
     if "review" in (cfg.get("_flags") or []) and res.get("asked") and case.get("real_stdin", True) and not cfg.get("xdist"):
         import random
